@@ -99,14 +99,14 @@ def parse_gbs(gbs_basis_file):
     """
     # pylint: disable=R0914
     with open(gbs_basis_file) as basis_fh:
-        gbs_basis = basis_fh.read()
+        # start with a newline so that an element header on the very first line is recognized as well
+        gbs_basis = "\n" + basis_fh.read()
     # splits file into 'element', 'basis stuff', 'element',' basis stuff'
     # e.g., ['H','stuff with exponents & coefficients\n', 'C', 'stuff with etc\n']
     data = re.split(r"\n\s*(\w[\w]?)\s+\w+\s*\n", gbs_basis)
     dict_angmom = {"s": 0, "p": 1, "d": 2, "f": 3, "g": 4, "h": 5, "i": 6, "k": 7}
-    # remove first part
-    if "\n" in data[0]:  # pragma: no branch
-        data = data[1:]
+    # remove first part (everything before the first element header)
+    data = data[1:]
     # atoms: stride of 2 get the ['H','C', etc]. basis: take strides of 2 to skip elements
     atoms = data[::2]
     basis = data[1::2]
